@@ -229,7 +229,7 @@ def main(argv=None):
     level = getattr(mod, 'LEVEL', 'model_checking')
     cov = {
         'states': max(tot['paths'], 0),
-        'transitions': max(tot['branches'], 0),
+        'transitions': tot['branches'] + tot['obligations'],   # solver-decided branch points + final obligations
         'traces_validated_against_impl': conf,
         'obligations': tot['obligations'],
         'discharged': tot['discharged'],
